@@ -217,6 +217,74 @@ theorem mem_depAdj_iff (p : Proj) (hnd : (names p).Nodup) (v c : Name) :
     simp only [enabledDeps, List.mem_map, List.mem_filter, List.contains_iff_mem]
     exact ⟨d, ⟨hd, List.mem_map.mp hen⟩, rfl⟩
 
+theorem accepted_iff_lemma (p : Proj) :
+    (run p).cls = "ok" ↔
+      (∀ s ∈ p.services, ∀ d ∈ s.deps, d.required = true → d.name ∈ names p) ∧
+      (∀ v ∈ names p, ∀ n, ¬ Reaches (depAdj p) n v v) := by
+  have hbi := build_none_iff (names p) p.disabled p.services []
+  by_cases hb : (build (names p) p.disabled p.services []).1 = none
+  · have hacc := (⟨fun hok v hv n hr => cyclic_project_refused_lemma p v hv n hr hok, acyclic_project_accepted_lemma p hb⟩ :
+        (run p).cls = "ok" ↔ ∀ v ∈ names p, ∀ n, ¬ Reaches (depAdj p) n v v)
+    constructor
+    · intro h
+      refine ⟨?_, hacc.mp h⟩
+      intro s hs d hd hreq
+      rcases hbi.mp hb s hs d hd with h1 | h1
+      · simpa using h1
+      · rw [hreq] at h1; cases h1
+    · intro h; exact hacc.mpr h.2
+  · constructor
+    · intro h; exact absurd h ((run_cls_of_build p).1 hb)
+    · intro h
+      exfalso
+      apply hb
+      apply hbi.mpr
+      intro s hs d hd
+      by_cases hreq : d.required = true
+      · left; simpa using h.1 s hs d hd hreq
+      · right; simpa using hreq
+
+/-- two association-list renderings of the same Go maps: the same services (by name), each with the same `depends_on`
+entries, in any order -/
+def SameMaps (p q : Proj) : Prop :=
+  (∀ s ∈ p.services, ∃ t ∈ q.services, t.name = s.name ∧ ∀ d, d ∈ s.deps ↔ d ∈ t.deps) ∧
+  (∀ t ∈ q.services, ∃ s ∈ p.services, s.name = t.name ∧ ∀ d, d ∈ s.deps ↔ d ∈ t.deps)
+
+theorem SameMaps.symm {p q : Proj} (h : SameMaps p q) : SameMaps q p :=
+  ⟨fun t ht => by obtain ⟨s, hs, hn, hd⟩ := h.2 t ht; exact ⟨s, hs, hn, fun d => (hd d).symm⟩,
+   fun s hs => by obtain ⟨t, ht, hn, hd⟩ := h.1 s hs; exact ⟨t, ht, hn, fun d => (hd d).symm⟩⟩
+
+theorem SameMaps.names_sub {p q : Proj} (h : SameMaps p q) : ∀ v, v ∈ names p → v ∈ names q := by
+  intro v hv
+  obtain ⟨s, hs, rfl⟩ := List.mem_map.mp hv
+  obtain ⟨t, ht, hn, _⟩ := h.1 s hs
+  exact List.mem_map.mpr ⟨t, ht, hn⟩
+
+theorem SameMaps.depAdj_sub {p q : Proj} (hp : (names p).Nodup) (hq : (names q).Nodup) (h : SameMaps p q)
+    (v c : Name) (hc : c ∈ depAdj p v) : c ∈ depAdj q v := by
+  rw [mem_depAdj_iff p hp] at hc
+  rw [mem_depAdj_iff q hq]
+  obtain ⟨s, hs, rfl, ⟨d, hd, rfl⟩, hen⟩ := hc
+  obtain ⟨t, ht, hn, hdeps⟩ := h.1 s hs
+  exact ⟨t, ht, hn, ⟨d, (hdeps d).mp hd, rfl⟩, h.names_sub _ hen⟩
+
+theorem Reaches.mono {adj adj' : Name → List Name} (h : ∀ v c, c ∈ adj v → c ∈ adj' v) {n : Nat} {a b : Name}
+    (hr : Reaches adj n a b) : Reaches adj' n a b := by
+  induction hr with
+  | one hb => exact .one (h _ _ hb)
+  | step hc _ ih => exact .step (h _ _ hc) ih
+
+theorem accepted_sub {p q : Proj} (hp : (names p).Nodup) (hq : (names q).Nodup) (h : SameMaps p q)
+    (hok : (run p).cls = "ok") : (run q).cls = "ok" := by
+  rw [accepted_iff_lemma] at hok ⊢
+  obtain ⟨hreq, hacyc⟩ := hok
+  constructor
+  · intro t ht d hd hr
+    obtain ⟨s, hs, _, hdeps⟩ := h.2 t ht
+    exact h.names_sub _ (hreq s hs d ((hdeps d).mpr hd) hr)
+  · intro v hv n hn
+    exact hacyc v (h.symm.names_sub v hv) n (Reaches.mono (h.symm.depAdj_sub hq hp) hn)
+
 /-- what `plan` answers, case by case, in terms of `DepGraph.run` -/
 theorem plan_cases (p : Proj) (inverse : Bool) (maxc : Int) (after : List Name) :
     (∃ cls, plan p inverse maxc after = .refused cls ∧ (run p).cls = cls ∧ cls ≠ "ok") ∨
